@@ -57,6 +57,10 @@ def cases(tier, seed):
                 yield dict(kind="cvs", ds=ds, est=est, w=True, cv=cv, scoring=0, mode="serial", shape="2dmix")
                 yield dict(kind="cvs", ds=ds, est=est, w=True, cv=cv, scoring=0, mode="serial", shape="series")
     for est in EST:
+        for w in (False, True):
+            for cv in ("kfold3", "blockkfold_s", "blockshuffle_s"):
+                yield dict(kind="cvs", ds=2, est=est, w=w, cv=cv, scoring=0, mode="serial")
+    for est in EST:
         for cv in ("kfold3", "blockkfold", "shuffle"):
             for sc in (None, "neg_mean_squared_error"):
                 yield dict(kind="cvs", ds=0, est=est, w=True, cv=cv, scoring=SCORERS.index(sc), mode="client")
@@ -127,6 +131,10 @@ def cases(tier, seed):
 
 # --------------------------------------------------------------------------------- fixtures
 def dataset(i):
+    if i == 2:
+        # dataset 0 moved to projected-coordinate magnitudes (the data keep their values; block layouts keep their unit cells)
+        e, n, d, w = dataset(0)
+        return e + 500000.0, n + 7400000.0, d, w
     if i == 0:
         pts = [(0.2, 0.3), (0.7, 0.6), (1.3, 0.4), (2.6, 0.2), (2.2, 0.7), (3.5, 0.5), (0.5, 1.4), (1.6, 1.7), (1.2, 1.2), (2.8, 1.6), (3.3, 1.3), (3.8, 1.9)]
     else:
@@ -211,6 +219,10 @@ def make_cv(key):
         return ShuffleSplit(n_splits=2, test_size=0.3, random_state=3)
     if key == "blockkfold":
         return vd.BlockKFold(shape=(2, 4), n_splits=2, shuffle=True, random_state=1)
+    if key == "blockkfold_s":
+        return vd.BlockKFold(spacing=1.0, n_splits=2, shuffle=True, random_state=1)
+    if key == "blockshuffle_s":
+        return vd.BlockShuffleSplit(spacing=1.0, n_splits=2, test_size=0.3, random_state=2)
     if key == "blockshuffle":
         return vd.BlockShuffleSplit(shape=(2, 4), n_splits=2, test_size=0.3, random_state=2)
     raise ValueError(key)
